@@ -21,7 +21,7 @@ import (
 
 type c13Case struct {
 	Template string `json:"template"`
-	// Mode: "full" | "prune-node" | "prune-pair" | "prune-type" | "remove" | "remove-all" | "root" | "visitor" | "package"
+	// Mode: "abort" (the callback panics at call Index) | "full" | "prune-node" | "prune-pair" | "prune-type" | "remove" | "remove-all" | "root" | "visitor" | "package"
 	Mode string `json:"mode"`
 	// Index: node index (pre-order of the reference traversal) for prune-node / remove
 	Index  int    `json:"index"`
@@ -157,7 +157,7 @@ func init() {
 	core.Register(&core.Prop{
 		ID:    "C13",
 		Level: "model_checking",
-		Rule: "for every corpus tree (canonical and non-canonical corpus): Inspect/Walk visit logs under every single-node pruning predicate (one run per visited node; thorough: every pair of nodes), every node-type predicate, every removal of one optional child and of all at once, the traversal rooted at every inner node instead of the file, " +
+		Rule: "for every corpus tree (canonical and non-canonical corpus): Inspect/Walk visit logs under every single-node pruning predicate (one run per visited node; thorough: every pair of nodes), every node-type predicate, every removal of one optional child and of all at once, the traversal rooted at every inner node instead of the file, the callback leaving through a panic at every call (no call may follow), " +
 			"a visitor that hands a different visitor to each subtree, and a 3-file Package; oracle = reflection-derived child lists (exactly once, parent first, nil after children, pruned subtrees skipped) " +
 			"and go/ast.Inspect of the original ast mapped through the decorator's node map; state = (tree, predicate); non-trivial = predicate that prunes a node with children",
 		Assumptions: []string{"go/ast.Inspect of this toolchain is the reference traversal order", "struct field order of dst node types equals source order of children (checked against go/ast on every tree)"},
@@ -222,6 +222,10 @@ func runC13(ctx *core.Ctx, unit int) {
 		idx++
 	}
 	run(c13Case{Template: t.Name, Mode: "remove-all"}, true)
+	// the visitor abandons the traversal (panic + recover, the stop-at-first-match idiom) at every call
+	for k := range ref {
+		run(c13Case{Template: t.Name, Mode: "abort", Index: k}, true)
+	}
 	if ctx.Thorough() {
 		// every pair of pruned nodes (the second may lie inside the first, after it, or be a sibling)
 		for i := 0; i < idx; i++ {
@@ -296,6 +300,30 @@ func c13Check(cs c13Case, ctx *core.Ctx) core.Outcome {
 				fv.Set(reflect.Zero(fv.Type()))
 			}
 		}
+	}
+	if cs.Mode == "abort" {
+		// after the visitor left through a panic no further call may be made (go/ast makes none)
+		var all []visitRec
+		refLog(f, none, &all)
+		var got []visitRec
+		func() {
+			defer func() { recover() }()
+			dst.Inspect(f, func(n dst.Node) bool {
+				got = append(got, visitRec{n})
+				if len(got) == cs.Index+1 {
+					panic("stop")
+				}
+				return true
+			})
+		}()
+		want := all[:cs.Index+1]
+		if i, ok := sameLog(want, got); !ok {
+			return fail("calls-after-the-visitor-panicked", "the callback panicked at call %d (recovered outside Inspect); the visit log must end there\nexpected:\n%sgot:\n%s", cs.Index, logString(want, i), logString(got, i))
+		}
+		if ctx != nil {
+			ctx.R.Transitions += int64(len(want))
+		}
+		return core.Outcome{OK: true}
 	}
 	var root dst.Node = f
 	var astRoot ast.Node = af
